@@ -99,6 +99,9 @@ fn materialise(dir: &Value, base: &Hello) -> Vec<u8> {
                     let n = flight.len() - 20;
                     flight.truncate(n);
                 }
+                "recver0303" => flight[1..3].copy_from_slice(&[3, 3]),
+                "recver0302" => flight[1..3].copy_from_slice(&[3, 2]),
+                "recver0300" => flight[1..3].copy_from_slice(&[3, 0]),
                 x => tool_error(&format!("unknown mutation {}", x)),
             }
         }
